@@ -27,9 +27,12 @@ RULE = ('generated directories covering every single-factor variation and random
         'names; (n,) vs (n,1) vectors; presence/absence of spike_clusters, amplitudes, whitening, whitening inverse, '
         'shanks, probes, similar templates, features, template features, raw data (1..3 files, more channels than '
         'the channel map); dense vs sparse templates; id/time dtypes; NaN/inf cells incl. an all-NaN template; extra '
-        'spike_*.npy attributes of right and wrong length; non-monotonic times in both layouts (must be rejected); ALF '
+        'spike_*.npy attributes of right and wrong length (incl. files holding a single value); non-monotonic times in both layouts (must be rejected); ALF '
         'seconds given as exact dyadic rationals whose product with the rate has fractional part .25/.5/.75 (samples = '
-        'round half to even); channel positions that are not all distinct (linear layout); two candidate names for one '
+        'round half to even), as float32 seconds late in a long recording (the product must not be formed in single precision), '
+        'as realistic non-dyadic float64 seconds (inexact float product: judged to within its rounding error); float values '
+        'that need the precision of their stored dtype (exact tokens, multiples of 2^-40; amplitudes / templates / '
+        'attributes keep their stored dtype); channel positions that are not all distinct (linear layout); two candidate names for one '
         'attribute; labelled ALF names incl. templates.waveforms.<label>.npy; raw files with trailing bytes; traces '
         'indexed by slices / lists / integers; template_scaling with template accesses followed by a re-inspection; '
         'feature tables stored for a subset of the spikes (pc_feature_spike_ids), template features with and without '
@@ -48,6 +51,16 @@ ASSUMPTIONS = ['np.linalg.inv is opaque (whitening matrices are diagonal powers 
                'np.load / memmap / glob are transport; wildcard patterns match at most one file']
 
 
+ONE = 2 ** 40      # token of 1.0 in float arrays: floats are sent EXACTLY, as multiples of 2^-40 (every generated value is one)
+
+
+def _tok(x):
+    """exact token of a float: the integer x * ONE; a value that is not a multiple of 2^-40 (never generated: the result
+    of a computation) is sent as the text of its exact fraction and so differs from every model token"""
+    q = Fraction(x) * ONE
+    return int(q) if q.denominator == 1 else 'q%d/%d' % (q.numerator, q.denominator)
+
+
 def _cells(a):
     a = np.asarray(a)
     out = []
@@ -57,7 +70,7 @@ def _cells(a):
         elif isinstance(x, float) and np.isinf(x):
             out.append('inf' if x > 0 else 'ninf')
         else:
-            out.append(int(round(x * 4)) if isinstance(x, float) else int(x))
+            out.append(_tok(x) if isinstance(x, float) else int(x))
     return dict(shape=list(a.shape), data=out)
 
 
@@ -121,6 +134,10 @@ def _collect(m, case):
         metadata={f: {str(k): v for k, v in dd.items()} for f, dd in m.metadata.items()},
         n_spikes=int(m.n_spikes), n_channels=int(m.n_channels), n_templates=int(m.n_templates), duration=float(m.duration),
         features=S(m.sparse_features), template_features=S(m.sparse_template_features))
+    # stored precision of the float arrays that are shown as they are in the files
+    out['dtypes'] = dict(amplitudes=None if m.amplitudes is None else str(m.amplitudes.dtype),
+                         templates=None if m.sparse_templates is None else str(m.sparse_templates.data.dtype),
+                         spike_attributes={k: str(v.dtype) for k, v in m.spike_attributes.items()})
     if m.traces is not None:
         n = m.traces.shape[0]
         out['n_samples'] = int(n)
@@ -303,7 +320,7 @@ def _load_dir(d, files, case, again=True, write=True):
 
 
 def _arr_of(cells):
-    return np.array([x / 4. for x in cells['data']], dtype=float).reshape(cells['shape'])
+    return np.array([float(Fraction(x[1:])) / ONE if isinstance(x, str) else x / float(ONE) for x in cells['data']], dtype=float).reshape(cells['shape'])
 
 
 def impl(case):
@@ -322,7 +339,6 @@ def impl(case):
     return out
 
 
-ONE = 4      # token of 1.0 in float arrays (floats are sent as quarter units)
 
 
 def _time_tokens(case):
@@ -334,6 +350,18 @@ def _time_tokens(case):
     for v in vals:
         tden = max(tden, v.denominator)
     return tden
+
+
+def _loose_sample_idx(case):
+    """indices of the spikes whose sample is recovered from seconds t with fl64(t * rate) != t * rate (the model rounds the
+    exact product; the real code can only round the float one)"""
+    if any(n.startswith(('spikes.samples', 'spike_times.npy')) for n in case['files']) or case.get('expect_reject'):
+        return set()
+    st = next((f for n, f in case['files'].items() if n.startswith('spikes.times')), None)
+    if st is None:
+        return set()
+    return {j for j, t in enumerate(st['data']) if not isinstance(t, str)
+            and Fraction(t) * Fraction(case['rate']) != Fraction(float(np.float64(t) * np.float64(case['rate'])))}
 
 
 def _rat(q):
@@ -358,7 +386,7 @@ def model_query(case, impl_res):
             # seconds: exact numerators over tden
             data = [x if isinstance(x, str) else int(Fraction(x) * tden) for x in f['data']]
         else:
-            data = [x if isinstance(x, str) else (int(round(x * 4)) if 'float' in f['dtype'] else int(x)) for x in f['data']]
+            data = [x if isinstance(x, str) else (_tok(x) if 'float' in f['dtype'] else int(x)) for x in f['data']]
         data = ['inf' if x == 'ninf' else x for x in data]     # one infinity token in the model: both signs are scrubbed
         files.append([name, dict(shape=f['shape'], data=data)])
     raw = None
@@ -405,7 +433,21 @@ def judge(case, impl_res, ans):
         return 'SPEC: loading created %s, expected exactly %s' % (ok['created'], sorted(exp_created))
     # spike samples and times: the model's numbers (exact rationals; a float64 quotient / stored float is the
     # correctly rounded value of the rational)
-    if ok['spike_samples'] != m['spike_samples']:
+    loose = _loose_sample_idx(case)
+    if loose:
+        # seconds whose float64 product with the rate is inexact: any integer within 1/2 (+ one rounding error of the
+        # product) of the exact product is "the seconds times the rate, rounded"
+        st_ = next(f for n_, f in case['files'].items() if n_.startswith('spikes.times'))
+        if len(ok['spike_samples']) != len(m['spike_samples']):
+            return 'SPEC: %d spike samples, expected %d' % (len(ok['spike_samples']), len(m['spike_samples']))
+        for j, (g, e) in enumerate(zip(ok['spike_samples'], m['spike_samples'])):
+            if j in loose:
+                q = Fraction(st_['data'][j]) * Fraction(case['rate'])
+                if abs(Fraction(g) - q) > Fraction(1, 2) + abs(q) / 2 ** 52:
+                    return 'SPEC: spike sample %s of spike %d is not the seconds %r times the rate %r rounded' % (g, j, st_['data'][j], case['rate'])
+            elif g != e:
+                return 'SPEC: spike sample %s of spike %d, expected %s (seconds times the rate rounded half to even)' % (g, j, e)
+    elif ok['spike_samples'] != m['spike_samples']:
         return 'SPEC: spike samples %s, expected %s (file, or the seconds times the rate rounded half to even)' % (
             ok['spike_samples'][:8], m['spike_samples'][:8])
     if ok['spike_times'] != [float(_frac(q)) for q in m['spike_times']]:
@@ -445,6 +487,16 @@ def judge(case, impl_res, ans):
         return 'SPEC: extra per-spike attributes %s, expected %s' % (
             {k: str(v)[:60] for k, v in sorted(ok['spike_attributes'].items())},
             {k: str(v)[:60] for k, v in sorted(m['spike_attributes'].items())})
+    # ... each at the precision it is stored with ("equal the file contents": no cast of the float arrays)
+    dts = ok.get('dtypes') or {}
+    for key, pats in (('amplitudes', ('amplitudes.npy', 'spikes.amps')), ('templates', ('templates.npy', 'templates.waveforms.'))):
+        cand = {f['dtype'] for n_, f in case['files'].items() if n_.startswith(pats)}
+        if dts.get(key) is not None and cand and dts[key] not in cand:
+            return 'SPEC: %s are shown as %s, the file holds %s' % (key, dts[key], sorted(cand))
+    for n_, dt in (dts.get('spike_attributes') or {}).items():
+        f = case['files'].get('spike_%s.npy' % n_)
+        if f is not None and dt != f['dtype']:
+            return 'SPEC: per-spike attribute %s is shown as %s, the file holds %s' % (n_, dt, f['dtype'])
     # traces
     if case.get('raw'):
         if m['traces'] is None or m['n_samples'] is None:
@@ -481,6 +533,8 @@ def nontrivial(case):
 
 
 def tally(rep, case, impl_res, ans):
+    if case.get('kind') != 'round' and _loose_sample_idx(case):
+        rep.count('alf_samples_judged_up_to_the_rounding_of_the_float_product')
     for k in case.get('tags', []):
         rep.count(k)
     if case.get('also_alf'):
@@ -509,6 +563,15 @@ def shrink(case):
 
 def F(dtype, shape, data):
     return dict(dtype=dtype, shape=list(shape), data=list(data))
+
+
+def _fval(rng, dtype, lo, hi):
+    """a value in [lo, hi) that NEEDS the precision of its stored dtype and is exactly representable in it: float64 ->
+    a multiple of 2^-36 (about 40 significant bits: a float32 / float16 cast changes it), float32 -> a multiple of 2^-14
+    (about 18 bits: a float16 cast changes it).  Every such value is a multiple of 2^-40 (exact token)."""
+    sh = 36 if dtype == 'float64' else 14
+    k = rng.randrange(lo * 2 ** sh, hi * 2 ** sh)
+    return (k | 1) / 2. ** sh
 
 
 def _near_reserved_name(rng):
@@ -552,7 +615,28 @@ def make_case(rng, i):
     tdt = rng.pick(['uint64', 'int64', 'int32', 'uint32'])
     if alf:
         tags.append('alf')
-        if i % 12 == 3:
+        if i % 12 == 7:
+            # seconds stored in SINGLE precision, late in a long recording (tens of minutes at 25 / 30 kHz): the spacing of
+            # float32 there is several sample periods.  stored * rate is exact in double precision (24 + 11 bits), so
+            # "samples recovered by rounding" has one answer: the exact product rounded
+            rate = rng.pick([30000., 25000.])
+            t0 = rng.randrange(300, 3500)
+            samples = sorted(int(rate) * (t0 + 7 * k_) + rng.randrange(int(rate)) for k_ in range(ns))
+            times = [float(np.float32(s_ / rate)) for s_ in samples]
+            assert all(Fraction(t) * Fraction(rate) == Fraction(t * rate) for t in times)
+            files['spikes.times.npy'] = F('float32', v(ns), times)
+            tags.append('alf_times_float32_late_in_recording')
+        elif i % 24 == 11:
+            # realistic double-precision seconds: (n + 1/2) / rate and n / rate + a third of a period are not dyadic, their
+            # float64 product with the rate is NOT exact: samples must be A rounding of the product (judged to within the
+            # error of one float multiplication, see `_loose_sample_idx`)
+            rate = rng.pick([30000., 25000., 1000.])
+            ns_ = sorted(rng.randrange(0, 10 ** 6) for _ in range(ns))
+            times = sorted((n_ + rng.pick([.5, 1 / 3., 0., .25])) / rate for n_ in ns_)
+            samples = ns_
+            files['spikes.times.npy'] = F('float64', v(ns), times)
+            tags.append('alf_times_not_dyadic')
+        elif i % 12 == 3:
             # seconds written as samples / rate (what an exporter does): the products are integers up to rounding
             files['spikes.times.npy'] = F('float64', v(ns), [s / rate for s in samples])
             tags.append('alf_times_samples_over_rate')
@@ -603,18 +687,19 @@ def make_case(rng, i):
     else:
         tags.append('no_spike_clusters')
     if rng.random() < .7:
-        amps = [rng.randrange(0, 20) / 4. for _ in range(ns)]
+        adt = rng.pick(['float64', 'float64', 'float32'])
+        amps = [_fval(rng, adt, 0, 20) for _ in range(ns)]
         if rng.random() < .4:
             amps[rng.randrange(ns)] = rng.pick(['nan', 'inf', 'ninf'])
             if rng.random() < .5:
                 amps[rng.randrange(ns)] = rng.pick(['nan', 'inf', 'ninf'])
             tags.append('nan_in_amplitudes')
-        files[N('amplitudes.npy', 'spikes.amps.npy')] = F('float64', v(ns), amps)
+        files[N('amplitudes.npy', 'spikes.amps.npy')] = F(adt, v(ns), amps)
     else:
         tags.append('no_amplitudes')
     files[N('channel_map.npy', 'channels.rawInd.npy')] = F(rng.pick(['int32', 'int64', 'uint32']), v(nc), rng.sample(range(ncd), nc))
     cells = [(x, y) for x in range(4) for y in range(nc + 2)]
-    files[N('channel_positions.npy', 'channels.localCoordinates.npy')] = F('float64', [nc, 2], [float(c) for xy in rng.sample(cells, nc) for c in (xy[0] * 10, xy[1] * 20)])
+    files[N('channel_positions.npy', 'channels.localCoordinates.npy')] = F('float64', [nc, 2], [c + _fval(rng, 'float64', 0, 1) for xy in rng.sample(cells, nc) for c in (xy[0] * 10, xy[1] * 20)])
     if i % 9 == 4:
         # two channels on the same position: the loader replaces the table by the linear layout
         pf = files[N('channel_positions.npy', 'channels.localCoordinates.npy')]
@@ -627,7 +712,7 @@ def make_case(rng, i):
         files[N('channel_probe.npy', 'channels.probes.npy')] = F('int32', [nc], sorted(rng.randrange(2) for _ in range(nc))); tags.append('probes')
     sparse = rng.random() < .3
     nloc = rng.randrange(2, nc + 1) if sparse else nc
-    tdata = [float(rng.randrange(-8, 9)) for _ in range(nt * nsw * nloc)]
+    tdata = [_fval(rng, 'float32', -8, 9) for _ in range(nt * nsw * nloc)]
     if rng.random() < .25:
         t = rng.randrange(nt)
         for k in range(t * nsw * nloc, (t + 1) * nsw * nloc):
@@ -667,14 +752,14 @@ def make_case(rng, i):
             files['whitening_mat_inv.npy'] = F('float64', [nc, nc], [1. / diag[a] if a == b else 0. for a in range(nc) for b in range(nc)])
             tags.append('whitening_inv_file')
     if rng.random() < .4:
-        sim = [float(rng.randrange(0, 5)) for _ in range(nt * nt)]
+        sim = [_fval(rng, 'float32', 0, 5) for _ in range(nt * nt)]
         if rng.random() < .3:
             sim[rng.randrange(nt * nt)] = rng.pick(['nan', 'inf', 'ninf']); tags.append('nan_in_similar')
         files['similar_templates.npy'] = F('float32', [nt, nt], sim); tags.append('similar')
     if rng.random() < .4:
         npcs = 2
         nl = rng.randrange(2, nc + 1)
-        files['pc_features.npy'] = F('float32', [ns, npcs, nl], [float(rng.randrange(-4, 5)) for _ in range(ns * npcs * nl)])
+        files['pc_features.npy'] = F('float32', [ns, npcs, nl], [_fval(rng, 'float32', -4, 5) for _ in range(ns * npcs * nl)])
         files['pc_feature_ind.npy'] = F('uint32', [nt, nl], [c for _ in range(nt) for c in rng.sample(range(nc), nl)])
         tags.append('features')
     if 'features' in tags and rng.random() < .5:
@@ -704,7 +789,8 @@ def make_case(rng, i):
             files['template_feature_spike_ids.npy'] = F('int64', [nf], sorted(rng.sample(range(ns), nf)))
             tags.append('template_feature_spike_ids')
     if rng.random() < .3:
-        files['spike_extra.npy'] = F('float64', v(ns), [float(rng.randrange(9)) for _ in range(ns)]); tags.append('extra_attr')
+        xdt = rng.pick(['float64', 'float32'])
+        files['spike_extra.npy'] = F(xdt, v(ns), [_fval(rng, xdt, 0, 9) for _ in range(ns)]); tags.append('extra_attr')
         if rng.random() < .5:
             # attribute names with underscores (spike_depth_um, spike_depth_raw) and non-finite cells
             vals = [float(rng.randrange(9)) for _ in range(ns)]
@@ -726,6 +812,11 @@ def make_case(rng, i):
             k_ = ns if rng.random() < .85 else ns + 1
             files['spike_%s.npy' % n_] = F(rng.pick(['float64', 'float32', 'int64']), v(k_), [float(rng.randrange(50)) for _ in range(k_)])
             tags.append(_attr_name_class(n_))
+    if rng.random() < .12:
+        # an attribute file holding ONE value (stored as 0-d, (1,) or (1, 1)): an attribute of the wrong length like
+        # spike_wrong.npy - not shown, and the dataset loads
+        files['spike_%s.npy' % rng.pick(['gain', 'one', 'times_offset'])] = F(rng.pick(['float64', 'int64']), rng.pick([[], [1], [1, 1]]), [3.0])
+        tags.append('extra_attr_single_value')
     if rng.random() < .15 and not alf:
         # files that carry a reserved name itself and the length of an attribute: never shown as attributes
         for n_ in rng.sample(['times_reordered', 'samples', 'amplitudes'], rng.randrange(1, 3)):
